@@ -25,6 +25,7 @@ Statements:
   ["fget", f] ["fset", f, v] FlowVar f
   ["call", R, n]      drive inner (not played) routine R with next() n times
   ["pause", rid, d]   (C10) pause routine rid now and resume it d later ...
+  ["yinf"]            yield inf: the routine is never scheduled again
   ["reenter"]         the routine calls next() on itself (must be refused) and goes on
   ["replay", rid]     reset() + play() of routine rid if it has ended (once)
   ["resched", rid, d] clock.sched(d, routine rid) while it is pending after a
@@ -208,6 +209,8 @@ class Gen:
                 body.append(['call', inner, rng.randint(1, 5)])
             else:
                 body.append(['y', self.delta()])
+        if 'yinf' in self.features and rng.random() < 0.12:
+            body.append(['yinf'])      # yields inf: never scheduled again
         R['body'] = body
         return R
 
@@ -468,7 +471,8 @@ class Run:
                 run.errors.append((st['rid'], type(e).__name__, short_tb(e)))
                 run.log.append(('exc', st['rid'], type(e).__name__))
             finally:
-                run._dec()
+                if not st.get('gone'):
+                    run._dec()
         return body
 
     # ---- the C05 monitor ---------------------------------------------
@@ -622,6 +626,14 @@ class Run:
                     except Exception as e:
                         out = type(e).__name__
                 self.log.append((op, st['rid'], s[1], out, self.now_secs() - self.T0))
+            elif op == 'yinf':
+                # inf is "never": the routine leaves its clock for good
+                self.log.append(('yinf', st['rid'], self.now_secs() - self.T0))
+                st['gone'] = True
+                self._dec()
+                yield float('inf')
+                self.log.append(('resumed-after-inf', st['rid']))
+                self.fail('resumed-after-yielding-inf', rid=st['rid'], after='yinf')
             elif op == 'reenter':
                 me = st['rout']         # the routine that is running this body
                 out = 'no-exception'
